@@ -95,7 +95,7 @@ func loadProgram(repo string) (*G, error) {
 	prog, _ := ssautil.AllPackages(pkgs, ssa.GlobalDebug|ssa.InstantiateGenerics)
 	prog.Build()
 	g := &G{prog: prog, fset: prog.Fset, specs: NewSpecs(), tags: map[string]int{}, strs: map[string]int{}, fnByKey: map[string]*ssa.Function{},
-		repoPkgs: map[string]*ssa.Package{}, errIDs: map[string]int{}}
+		repoPkgs: map[string]*ssa.Package{}, errIDs: map[string]int{}, globIDs: map[string]int{}}
 	g.modPath = "github.com/XiXi-2024/xixi-kv"
 	packages.Visit(pkgs, nil, func(p *packages.Package) {
 		if p.Types != nil {
@@ -298,7 +298,7 @@ func run(t0 time.Time) int {
 	var results []*FuncResult
 	var rmu sync.Mutex
 	var wg sync.WaitGroup
-	sem := make(chan struct{}, 8)
+	sem := make(chan struct{}, 1)
 	for _, k := range keys {
 		fn := g.fnByKey[k]
 		spec := g.specs.Funcs[k]
@@ -312,7 +312,7 @@ func run(t0 time.Time) int {
 			continue // external: contract is trusted
 		}
 		wg.Add(1)
-		go func(fn *ssa.Function, spec *FuncSpec) {
+		func(fn *ssa.Function, spec *FuncSpec) {
 			defer wg.Done()
 			sem <- struct{}{}
 			defer func() { <-sem }()
@@ -579,6 +579,7 @@ func verifyLemmas(g *G, prop string) *FuncResult {
 	e.topKey = "lemma"
 	fr := &Frame{e: e, env: map[string]*Val{}, specVars: map[string]*Val{}, key: "lemma"}
 	st := &State{pc: "true", heap: map[string]string{}}
+	e.emitAxioms()
 	for _, l := range ls {
 		t, err := fr.evalClause(&l.Clause, st, st, nil, nil)
 		if err != nil {
